@@ -218,7 +218,9 @@ def classify(ctx, seg, idx, reason, leg):
     what = "%s: line %d of the run %s | scenario %s | preceding lines %s" % (
         reason, idx, json.dumps({k: v for k, v in ev.items() if k not in ("seq", "sg")})[:300], json.dumps(scn)[:400], json.dumps(lines)[:900])
     ctx.discrepancy(sig, what[:1500], {"property": "C19", "family": FAMILY, "leg": leg, "fam": fam, "scn": scn,
-                                      "lm": ev if fam == "lm" else None, "segment": seg[:idx + 1][-60:], "line": idx, "reason": reason})
+                                      "lm": ev if fam == "lm" else None, "line": idx, "reason": reason,
+                                      # the whole run as recorded (reset line first), so that --replay can re-validate exactly what was seen
+                                      "segment": seg if len(seg) <= 8000 else seg[:idx + 1]})
 
 
 def module_for(evs):
@@ -446,6 +448,19 @@ def replay(ctx, rp):
     """Re-run a saved discrepancy of this family: the scenario again (three times: the interleaving of the shard
     workers is not controlled), or the direct ListMissingDestinationBlobs family."""
     drv = ctx.build("c19v")
+    rec = rp.get("segment") or []
+    if rec and is_reset(rec[0]):
+        # first the run as it was recorded: it is a behaviour of the real code, whatever a re-run does
+        fails = ctx.tlc_trace_segments(module_for(rec), "Trace_SyncValidate.cfg", rec, is_reset)
+        ctx.cov["traces_validated_against_impl"] += 1
+        ctx.cov["evaluations"] += len(rec)
+        if fails:
+            for seg, idx, why in fails:
+                ctx.log("replay: the recorded run (%d lines) is rejected again at line %d" % (len(rec), idx))
+                classify(ctx, seg, idx, why + " (run as recorded)", "replay-recorded")
+        else:
+            ctx.log("replay: the recorded run (%d lines, saved as rejected at line %s) is accepted by the specification as it is now" % (
+                len(rec), rp.get("line")))
     if rp.get("fam") == "lm":
         args = ["-lm", "5,0,0"] if not any(x[0] == 0 for x in (rp.get("lm") or {}).get("s", []) + (rp.get("lm") or {}).get("d", [])) else ["-lm", "4,1,0"]
     else:
